@@ -453,6 +453,7 @@ HARNESS_NOTE = ("Contracts of this property are PRE/POST pairs checked by hand-i
                 "and are unwound completely (unwinding assertions on).")
 PROPERTY_META["C17"] = {
     "level": "proof",
+    "design_ref": "DESIGN.md sections 3 (C17), 10.6 and 10.8",
     "level_text": ("Per table order: hashtable_get/put/remove of the real DECLARE_HASHTABLE macro are proved to implement the finite-map operations "
                    "(lookup of an arbitrary second key unchanged, value most recently stored returned, refusal only when the add range of the key's home is full) "
                    "and to preserve the representation invariant, from EVERY table state satisfying the invariant, for orders 2 and 3 (uint32 keys) with an "
@@ -675,8 +676,9 @@ PROPERTY_META["C15"] = {
 }
 PROPERTY_META["C19"] = {
     "level": "other",
+    "design_ref": "DESIGN.md sections 3 (C19) and 10.7",
     "level_text": ("Bounded but exhaustive-within-bound (not counted as proved): contract checks of the code cjet wraps around zlib (src/compression.c, send_frame in src/websocket.c) with inflate()/deflate() replaced by ghost stubs that state zlib's documented contract "
-                   "and CHECK every window cjet hands over: for fragmented messages (2-3 fragments of <= 3/26/3 bytes, every (len1,len2) pair as its own constant-size path) and unfragmented messages (<= 6 bytes) every byte "
+                   "and CHECK every window cjet hands over: for fragmented messages (2-3 fragments; quick tier: first <= 3, second <= 8 - and 19..23 after a 3-byte first one, where one doubling of the buffer is not enough -, third <= 3 bytes; thorough tier: second up to 26; every length triple as its own constant-size path) and unfragmented messages (<= 6 bytes) every byte "
                    "cjet copies stays inside its allocation, the fragments reach inflate concatenated in order followed by 00 00 FF FF, the application gets exactly the inflated bytes once, corrupt streams are reported "
                    "and never delivered, and every buffer is released on every path (cbmc memory-leak check); for outgoing messages (<= 8 bytes, every compressed size zlib may produce) a frame goes out only with the complete "
                    "block minus its tail, RSV1 set and the compressed length, and a failed compression sends nothing. Extension negotiation (check_websocket_extensions) has a best-effort bounded unit in the thorough tier. " + HARNESS_NOTE),
